@@ -551,7 +551,7 @@ func init() {
 			pf.Waiters, pf.WaitOps = [2]int{1, 2}, [2]int{1, 4}
 			pf.Wait = []wop{{opWait, 4}, {opStatus, 4}, {opResult, 1}}
 			pf.Cancellers, pf.CancelOps = [2]int{0, 1}, [2]int{1, 2}
-			pf.Cancel = []wop{{opCloseJob, 6}, {opPurge, 1}}
+			pf.Cancel = []wop{{opCloseJob, 6}, {opPurge, 1}, {opCloseQueue, 2}}
 			pf.Releaser = 50
 			return generate(r, pf)
 		},
